@@ -41,9 +41,13 @@ func nameVariants(names []string) []string {
 	for _, n := range names {
 		have[n] = true
 	}
-	var out []string
+	out := []string{}
+	if !have["/"] {
+		have["/"] = true
+		out = append(out, "/")
+	}
 	for _, n := range names {
-		for _, v := range []string{strings.ToLower(n), strings.ToUpper(n), " " + n, n + " ", strings.TrimSpace(n)} {
+		for _, v := range []string{strings.ToLower(n), strings.ToUpper(n), " " + n, n + " ", strings.TrimSpace(n), n + "/", strings.TrimSuffix(n, "/")} {
 			if !have[v] && v != "" {
 				have[v] = true
 				out = append(out, v)
@@ -55,7 +59,7 @@ func nameVariants(names []string) []string {
 
 const unknownName = "http://unknown.example/never-registered"
 
-var regKinds = []string{"xp2", "xp1", "own", "opt", "two", "str", "xp1n", "loca", "locb", "xp2", "xp1", "own", "opt", "two", "str", "xp1n", "loca", "locb", "noprof", "notag"}
+var regKinds = []string{"xp2", "xp1", "own", "opt", "two", "str", "xp1n", "loca", "locb", "xp2", "xp1", "own", "opt", "two", "str", "xp1n", "loca", "locb", "noprof", "notag", "ptremb"}
 
 // kinds whose claims carry an eat.Profile, i.e. whose name must be a URI or an OID
 var kindNeedsURI = map[string]bool{"xp2": true, "own": true, "opt": true, "two": true, "loca": true, "locb": true}
@@ -95,6 +99,8 @@ func profileOfKind(kind, name string) psatoken.IProfile {
 		return localProfileA(name)
 	case "locb":
 		return localProfileB(name)
+	case "ptremb":
+		return XPtrProfile{name}
 	case "noprof":
 		return NoProfProfile{name}
 	case "notag":
@@ -172,6 +178,7 @@ type regProbe struct {
 	c265    *string           // CBOR: text under key 265 (nil = absent)
 	weak    bool              // the property leaves the dispatch of this document open
 	payload []byte            // cose: the claims inside the envelope
+	p1claim *string           // text carried under the profile-1 profile claim (-75000 / psa-profile), when present
 	members map[string]string // JSON: profile member -> string value ("\x00nonstring" for non-string)
 }
 
@@ -181,6 +188,10 @@ func regBodies() (*ClaimsDesc, *ClaimsDesc) {
 	if regP1Body == nil {
 		a := genValidClaims(NewRng(0x16a), "p1")
 		b := genValidClaims(NewRng(0x16b), "p2")
+		// lean: no optional claims, so that anything leaking in from elsewhere shows
+		a.CertRef, a.VSI = nil, nil
+		b.BootSeed, b.CertRef, b.VSI = nil, nil, nil
+		a.XSw, b.XSw = false, false
 		regP1Body, regP2Body = &a, &b
 	}
 	return regP1Body, regP2Body
@@ -277,9 +288,22 @@ func buildRegProbes(names []string) []regProbe {
 			}
 		}
 		// a profile-1 shaped token naming n under its own key: dispatch sees no key 265
-		add(regProbe{name: "cbor/-75000=" + n, ser: "cbor", doc: enc(d1, false), declares: []string{n}})
+		add(regProbe{name: "cbor/-75000=" + n, ser: "cbor", doc: enc(d1, false), declares: []string{n}, p1claim: &n})
 		add(regProbe{name: "json/eat-profile=" + n, ser: "json", doc: enc(d2, true), declares: []string{n}, members: map[string]string{"eat-profile": n}})
-		add(regProbe{name: "json/psa-profile=" + n, ser: "json", doc: enc(d1, true), declares: []string{n}, members: map[string]string{"psa-profile": n}})
+		add(regProbe{name: "json/psa-profile=" + n, ser: "json", doc: enc(d1, true), declares: []string{n}, members: map[string]string{"psa-profile": n}, p1claim: &n})
+		// a token that is rejected part-way (client id of the wrong type) although it carries every optional claim
+		dfull := *p2
+		dfull.ProfClaim = sp(n)
+		dfull.BootSeed, dfull.CertRef, dfull.VSI = hp(make([]byte, 16)), sp("1234567890123-12345"), sp("leaky")
+		if j := enc(dfull, true); j != nil {
+			add(regProbe{name: "json/eat-profile=" + n + " client-id of the wrong type", ser: "json", doc: jsonEdit(j, "psa-client-id", `"x"`, false), declares: []string{n}, members: map[string]string{"eat-profile": n}})
+		}
+		d1full := *p1
+		d1full.ProfClaim = sp(n)
+		d1full.CertRef, d1full.VSI = sp("1234567890123"), sp("leaky")
+		if j := enc(d1full, true); j != nil {
+			add(regProbe{name: "json/psa-profile=" + n + " client-id of the wrong type", ser: "json", doc: jsonEdit(j, "psa-client-id", `"x"`, false), declares: []string{n}, members: map[string]string{"psa-profile": n}, p1claim: &n})
+		}
 		// profile-1 shaped body announcing n as plain text under key 265 / member str-profile
 		dn := *p1
 		dn.ProfClaim = nil
@@ -321,6 +345,14 @@ func buildRegProbes(names []string) []regProbe {
 			add(regProbe{name: "json/opt-profile=" + n, ser: "json", doc: jsonEdit(j, "opt-profile", quote(n), false), declares: []string{n},
 				members: map[string]string{"eat-profile": n, "opt-profile": n}})
 		}
+	}
+	// the profile-1 profile claim present but empty
+	{
+		empty := ""
+		de := *p1
+		de.ProfClaim = sp("")
+		add(regProbe{name: `cbor/-75000=""`, ser: "cbor", doc: enc(de, false), p1claim: &empty})
+		add(regProbe{name: `json/psa-profile=""`, ser: "json", doc: enc(de, true), members: map[string]string{"psa-profile": ""}, p1claim: &empty})
 	}
 	// no profile at all
 	d1 := *p1
@@ -788,6 +820,34 @@ func (regWorld) Exec(prop string, t *Trace) *Result {
 		if vok != (got.valid == "ok") {
 			res.violate("C07", "validated-under-other-rules", "", step, "%s: decode-and-validate accepted=%v although the declared profile's own validation says %s", p.name, vok, got.valid)
 		}
+		if vok && vc != nil && p.p1claim != nil {
+			if pn, err := vc.GetProfile(); err != nil || pn != *p.p1claim {
+				res.violate("C07", "accepted-token-reports-other-profile", "", step, "%s carries the profile claim %q but was accepted and reports %q (err=%v)", p.name, *p.p1claim, pn, err)
+			}
+		}
+		// decoding must overwrite, not merge with, what the receiver held: a fresh NewClaims
+		// instance and a zero-value instance of the same type must end up alike
+		if zero := zeroInstance(kind, name); zero != nil && direct != nil {
+			func() {
+				defer func() { _ = recover() }()
+				u := zero.(unmarshalBoth)
+				var zerr error
+				switch p.ser {
+				case "cbor":
+					zerr = u.UnmarshalCBOR(append([]byte{}, p.doc...))
+				case "cose":
+					zerr = u.UnmarshalCBOR(append([]byte{}, p.payload...))
+				default:
+					zerr = u.UnmarshalJSON(append([]byte{}, p.doc...))
+				}
+				if zerr == nil {
+					res.Evals++
+					if a, b := getterObs(direct), getterObs(zero); a != b {
+						res.violate("C07", "decode-merges-with-receiver-state", "", step, "%s decoded into a fresh NewClaims(%q) instance and into a zero-value instance of the same type differ (the token must be judged by what IT says):\n NewClaims: %s\n zero:      %s", p.name, name, a, b)
+					}
+				}
+			}()
+		}
 		if vok && vc != nil {
 			res.Probes["accepted_token_profile_checked"]++
 			if pn, err := vc.GetProfile(); err != nil || pn != name {
@@ -1079,4 +1139,20 @@ func runRegIsolated(prop string, tr *Trace) *Result {
 
 func init() {
 	isolatedRunner["W-REG"] = runRegIsolated
+}
+
+// zeroInstance returns a claims object of the kind's type that carries nothing
+// but its canonical profile (no preset profile claim, no container).
+func zeroInstance(kind, name string) psatoken.IClaims {
+	switch kind {
+	case "p1":
+		return &psatoken.P1Claims{CanonicalProfile: psatoken.Profile1Name}
+	case "p2":
+		return &psatoken.P2Claims{CanonicalProfile: psatoken.Profile2Name}
+	case "xp1", "xp1n":
+		return &XP1Claims{P1Claims: psatoken.P1Claims{CanonicalProfile: name}}
+	case "xp2":
+		return &XP2Claims{P2Claims: psatoken.P2Claims{CanonicalProfile: name}}
+	}
+	return nil
 }
